@@ -103,4 +103,23 @@ PROPS = {
             rap("clock", "^TestC12Clock$", 20000, 200000, 1, 4),
         ],
     },
+    "C14": {
+        "level": "exploration",
+        "level_text": "generated search over descriptor values of all 23 typed tags, unknown and user-defined tags against an independent "
+                      "EN 300 468 / ISO 13818-1 encoder (both directions), a structural walk of every written loop, and malformed-descriptor "
+                      "loops (directly and inside a PMT through the Demuxer) for the no-shift clause; native fuzzing of the parser in the thorough tier",
+        "level_note": "trusts harness/ref/desc.go; library representation conventions are followed where the struct cannot express more (one "
+                      "language/type pair in ISO-639, teletext page as two decimal digits, max bitrate in multiples of 50, VBI services with an "
+                      "unknown id written with one reserved byte); descriptor bodies <= 255 bytes",
+        "technique": "rapid property tests (round trip + differential against an independent descriptor encoder, structural length walk, no-shift metamorphic check) + native fuzzing",
+        "rule": "rapid-generated descriptor loops; non-trivial = >= 2 descriptors (parse), body >= 2 bytes (per tag), >= 1 wrong Length field (write), "
+                "every malformed-descriptor loop (no-shift); distinct by loop bytes",
+        "assumptions": ["verif-tagged wrappers VerifParseDescriptors / VerifWriteDescriptorsWithLength / VerifCalcDescriptorsLength call the private functions unchanged"],
+        "units": [
+            rap("parse", "^TestC14Parse$", 8000, 60000, 2, 16),
+            rap("tags", "^TestC14Tags$", 15000, 100000, 2, 16),
+            rap("write", "^TestC14Write$", 8000, 60000, 2, 16),
+            rap("noshift", "^TestC14NoShift$", 6000, 50000, 2, 16),
+        ],
+    },
 }
